@@ -186,9 +186,14 @@ Verdict(c) ==
 Single1(ty) == UNION {{[type |-> ty, f |-> [Baseline(ty) EXCEPT ![f] = l]] : l \in Dom(f)} : f \in Fields(ty)}
 Pairs(ty)   == UNION {UNION {{[type |-> ty, f |-> [Baseline(ty) EXCEPT ![f] = l, ![g] = k]] : l \in Dom(f), k \in Dom(g)} : g \in Fields(ty) \ {f}} : f \in Fields(ty)}
 
-CONSTANT Depth       \* 1: baseline + singles; 2: + pairs
+Triples(ty) == UNION {UNION {UNION {{[type |-> ty, f |-> [Baseline(ty) EXCEPT ![f] = l, ![g] = k, ![h] = m]] : l \in Dom(f), k \in Dom(g), m \in Dom(h)}
+                                     : h \in Fields(ty) \ {f, g}} : g \in Fields(ty) \ {f}} : f \in Fields(ty)}
 
-Cases(ty) == Single1(ty) \cup (IF Depth >= 2 THEN Pairs(ty) ELSE {})
+CONSTANT Depth       \* 1: baseline + singles; 2: + pairs; 3: + triples for the message types whose name starts with "aol." or "pnft."
+
+IsSmallType(t) == t \in {"aol.CreateTopic", "aol.AddWriter", "aol.DeleteWriter", "aol.AddRecord"} \/ t \in {x \in AllTypes : Cardinality(Fields(x)) <= 4}
+
+Cases(ty) == Single1(ty) \cup (IF Depth >= 2 THEN Pairs(ty) ELSE {}) \cup (IF Depth >= 3 /\ IsSmallType(ty) THEN Triples(ty) ELSE {})
 
 VARIABLES ty, c
 vars == <<ty, c>>
